@@ -22,7 +22,7 @@ RULE = ("dedicated command trees of depth <= 3 (every level: flags/options that 
         "reported chain has at least one subcommand or a global argument has an entry; distinct = distinct case text.")
 TRUSTED = [
     "Coq 8.16.1 kernel (coqc); no native_compute; theorems C09_* are 'Closed under the global context' "
-    "(ParseProofs/Chain.v imports lemmas of C07 Actions/ActionsLoop, C08 Spelling and C11 Reentrancy/ReentrancyProofs; "
+    "(ParseProofs/Chain.v and ChainWide.v import lemmas of C07 Actions/ActionsLoop, C08 Spelling and C11 Reentrancy/ReentrancyProofs; "
     "none of the axiom-dependent C11 theorems is used)",
     "extraction: ExtrOcamlBasic only, no Extract Constant; OCaml driver ocaml/c09_driver.ml + common_parse/{spec,show}.ml "
     "(prints `?` for ids a level does not define, as the harness does for entries the debug accessors refuse)",
@@ -46,35 +46,57 @@ ASSUMPTIONS = [
     "their name, name resolves to them); levels with ignore_errors and args_conflicts_with_subcommands off; an "
     "external subcommand only in a command without positionals",
     "C09_chain_globals: that some level holds an entry for the global is a hypothesis (defaults: C06)",
+    "third pass (ParseProofs/ChainWide.v): class wline (line <= gline <= wline), no premise on the selected children: per level "
+    "the option items above, values of single-valued positionals, optionally the values of one multi-valued positional "
+    "(pos_plain: no low-index multiples, no allow_missing_positional; the positional is not last / trailing-var-arg, no value "
+    "is its terminator; values are plain words: not `--`, not a long, not a short; the first value of a positional is not a "
+    "subcommand of the level; the further values of a multi-valued positional may be subcommand names unless THIS level has "
+    "subcommand_precedence_over_arg); a level ends with the end of the line, with `--` + an arbitrary tail (command without "
+    "external subcommands), with a selecting token (name/alias, with infer_subcommands the unique prefix of a name or alias or "
+    "an exact name, `--sub`, `-S`, first letter of a cluster; behind multi-values only a name and only with precedence) or with "
+    "an external subcommand; C09_levels_own_entries / C09_deepest_explicit_line: class wsplit (levels left through name / `--sub` selections)",
 ]
 TECHNIQUE = ("Coq proof (closed form of ArgMatcher::fill_in_global_values for chains of any depth; "
-             "_propagate_global_args/_build_subcommand copy global definitions to every depth; the token loop of "
-             "Parser::parse never touches the recorded subcommand; option prefixes (`--flag`, `--opt=v`, `--opt v`, `-ov`, `-o v`, `-abc`) "
-             "are consumed item by item and the loop reaches the subcommand token in state ValuesDone; by induction on the "
-             "nesting a successful parse of `pre_0 n_1 pre_1 ... n_k pre_k` reports exactly the canonical names selected "
-             "(name, alias, long flag, short flag alone, first letter of a cluster; external subcommand last with its "
-             "arguments verbatim), each level computed from its own prefix and definition; the chain composed with the "
-             "globals merge) + extracted-model/implementation correspondence + direct python oracle")
+             "_propagate_global_args/_build_subcommand copy global definitions to every depth, also into a user-defined `help`; "
+             "the token loop of Parser::parse never touches the recorded subcommand; the arguments of a level (`--flag`, `--opt=v`, "
+             "`--opt v`, `-ov`, `-o v`, `-abc`, values of single-valued positionals, the values of a multi-valued positional) are "
+             "consumed item by item; closed form of possible_subcommand with infer_subcommands (unique prefix of a name or alias "
+             "resolves to the one subcommand it matches, ambiguous prefix rejected); no dispatch after `--` for any state; by "
+             "induction on the nesting a successful parse of `args_0 n_1 args_1 ... n_k args_k` reports exactly the canonical "
+             "names selected (name, alias, inferred prefix, long flag, short flag alone, first letter of a cluster; a name behind "
+             "multi-values is swallowed or dispatched by the subcommand_precedence_over_arg of that level; external subcommand last "
+             "with its arguments verbatim), each level's entries = what its own tokens alone produce against its own definition; "
+             "the chain composed with the globals merge, the agreement of find_subcommand/_build_subcommand/get_used_global_args "
+             "derived from the validity gate; the deepest explicit occurrence of a global is reported at every level) "
+             "+ extracted-model/implementation correspondence + direct python oracle")
 LEVEL_TEXT = ("Machine-checked theorems (Coq 8.16, closed under the global context) about the executable model of "
               "Parser::{parse, possible_subcommand, possible_long_flag_subcommand, parse_long_arg, parse_short_arg, "
               "get_matches_with}, Command::{_propagate_global_args, _build_self, _build_subcommand, get_used_global_args, "
               "find_subcommand} and ArgMatcher::{propagate_globals, fill_in_global_values}: see evidence/C09.json for the "
-              "theorem list discharged on this run.  Whole-argv statements (C09_chain, C09_chain_short_flags, "
-              "C09_level_isolation, C09_level_entries, C09_chain_globals) hold for trees and lines of any depth in the "
-              "inductively defined classes line/gline (option prefixes of long/short flags and options and flag clusters, levels "
-              "that do not ignore errors).  The model is tied to clap_builder by running the extracted model and the real "
-              "crate (debug build) on the same generated command trees (depth <= 3) and argument vectors on every check; "
-              "the direct oracle recomputes the expected chain and the explicit occurrences from the case line and "
-              "checks chain, external arguments, per-level attribution and the agreement of every global across levels "
+              "theorem list discharged on this run.  Whole-argv statements hold for trees and lines of any depth in the "
+              "inductively defined classes line <= gline <= wline (C09_chain, C09_chain_short_flags, C09_chain_wide; "
+              "C09_chain_globals, C09_chain_globals_wide without any premise on the selected children): per level options in "
+              "six spellings, flag clusters, positionals (single-valued filled; multi-valued swallowing subcommand names unless "
+              "the level has subcommand_precedence_over_arg), selection by name / alias / unique inferred prefix / long or short "
+              "flag-subcommand / first letter of a cluster, `--` with an arbitrary tail, external subcommand last; levels do not "
+              "ignore errors.  C09_levels_own_entries: at every depth the entries of a level are exactly what its own tokens "
+              "alone produce against its own definition; C09_deepest_explicit_line: a global given at several levels is reported "
+              "everywhere with the values of the deepest level naming it.  The model is tied to clap_builder by running the "
+              "extracted model and the real crate (debug build) on the same generated command trees (depth <= 3) and argument "
+              "vectors on every check; the direct oracle recomputes the expected chain and the explicit occurrences from the case "
+              "line and checks chain, external arguments, per-level attribution and the agreement of every global across levels "
               "on the implementation's output alone.")
 LEVEL_NOTE = ("Trusted: Coq kernel, extraction, OCaml driver, Rust harness, generators, the python scan. Proved for all "
-              "inputs of the classes line/gline (ParseProofs/Chain.v): reported chain = chain named on the command line, "
-              "external arguments verbatim, level isolation (equation and entries), globals merged at every level with "
-              "explicit beating default. Outside the classes (positionals before a subcommand, `-o=v`, options inside clusters, "
-              "multi-value / require_equals / hyphen-value options, inference, ignore_errors, args_conflicts_with_subcommands) "
-              "the whole-argv statement is covered by the correspondence and the oracle. Recorded findings: `-vSy` "
-              "(parent flags before a short flag-subcommand letter with further letters) and a stale flag_subcmd_at "
-              "after a continued cluster; both are outside gline by construction.")
+              "inputs of the classes line/gline/wline/wsplit (ParseProofs/Chain.v, ChainWide.v): reported chain = chain named on "
+              "the command line (canonical names also after an inferred alias prefix; ambiguous prefix rejected; nothing "
+              "dispatched after `--`), external arguments verbatim, level isolation (equation and entries, every depth), globals "
+              "merged at every level with explicit beating default and the deepest explicit occurrence winning, a user-defined "
+              "`help` subcommand treated like any other. Outside the classes (`-o=v`, options inside clusters, multi-value / "
+              "require_equals / hyphen-value options, inferred long options and long flag-subcommands, options after the values "
+              "of a multi-valued positional, low-index multiples / allow_missing_positional, last / trailing-var-arg positionals, "
+              "ignore_errors, args_conflicts_with_subcommands) the whole-argv statement is covered by the correspondence and the "
+              "oracle. Recorded findings: `-vSy` (parent flags before a short flag-subcommand letter with further letters) and a "
+              "stale flag_subcmd_at after a continued cluster; both are outside gline/wline by construction.")
 
 
 # =============================================================================== dedicated trees
